@@ -2,6 +2,7 @@ import EaselModel.Miniapps.Tools
 import EaselModel.Miniapps.ReformatMsaLemmas
 import EaselModel.Miniapps.AliLemmas
 import EaselModel.Miniapps.Compstruct
+import EaselModel.Miniapps.Compalign
 /-! # C13 — property theorems about the reference functions of the miniapps (statements + glue only)
 
 The property has two halves. The half a model can express — "for valid inputs the core tools produce what their manual
@@ -631,6 +632,20 @@ example : (ppCounts EaselModel.Msa.Gen.rnaAbc [str "A", str "C"] [some (str "9")
 example : (ppCounts EaselModel.Msa.Gen.rnaAbc [str "A", str "-"] [some (str "9"), some (str ".")] 0).isSome = true := by decide +kernel
 
 end AlimaskPP
+
+/-! ## esl-compalign (`Miniapps/Compalign.lean`; default and -c tables compared exactly) -/
+section Compalign
+open EaselModel.Miniapps.Ali
+
+/-- an alignment compared with itself: every match residue and every insert residue is correct (100% in every column of the table) -/
+theorem compalign_self_is_perfect (kp : List (Bool × Nat)) :
+    (seqCounts kp kp).2.2.1 = (seqCounts kp kp).1 ∧ (seqCounts kp kp).2.2.2 = (seqCounts kp kp).2.1 := seqCounts_self kp
+
+/-- non-vacuity: RF `x.xx`, trusted row `AC-G`, test row `A-CG`: residue 2 moved from the insert after RF 1 to RF 2 -/
+example : residuePositions EaselModel.Msa.Gen.rnaAbc [true, false, true, true] [0, 1, 4, 2] = [(true, 1), (false, 1), (true, 3)] := by decide +kernel
+example : seqCounts [(true, 1), (false, 1), (true, 3)] [(true, 1), (true, 2), (true, 3)] = (2, 1, 2, 0) := by decide
+
+end Compalign
 
 /-! ## esl-afetch: "fetching returns the requested records" (`Miniapps/Afetch.lean`; complete stdout / output file compared) -/
 section Afetch
